@@ -2263,8 +2263,10 @@ func (err *SchemaError) Error() string {
 			panic(err)
 		}
 		buf.WriteString("\nValue:\n  ")
-		if err := encoder.Encode(err.Value); err != nil {
-			panic(err)
+		if encErr := encoder.Encode(err.Value); encErr != nil {
+			// a value JSON cannot write (NaN, an infinity, a map with other than string keys, as YAML
+			// bodies can carry them): describing an error must not panic
+			fmt.Fprintf(buf, "%v\n", err.Value)
 		}
 	}
 
